@@ -99,7 +99,7 @@ def run_tlc(
                 fh.write(cfg)
         else:
             cfg_name = cfg
-        cmd = ["java", "-XX:+UseParallelGC", f"-Xmx{heap}", "-Xss512m"]
+        cmd = ["java", "-XX:+UseParallelGC", f"-Xmx{heap}", "-Xss512m", f"-Djava.io.tmpdir={work}"]   # SANY unpacks its modules there
         cmd += jvm_opts or []
         cmd += ["-cp", JAR, "tlc2.TLC", "-workers", str(workers), "-metadir", os.path.join(work, "states"),
                 "-noGenerateSpecTE", "-config", cfg_name]
